@@ -480,3 +480,21 @@ def gate_on(t, cond):
     if a != ca:
         return None
     return (t[2], t[3]) if pol == cpol else (t[3], t[2])
+
+
+def return_cases(summary):
+    """[(guards, value, line, ctx)] for every way the function returns: each own `return` combined with each
+    resolution of the gates inside the returned value (single-exit code with a gated variable and
+    early-return code give the same cases)."""
+    from .algebra import arms
+    out = []
+    for ev, ctx in walk(summary.events):
+        if isinstance(ev, ir.Return) and not ctx.inl:
+            # gates may also sit inside the guards (`if factor == 0` with factor = mode ? a : b): split jointly
+            for facts, tup in arms(("tuple", (ev.value,) + tuple(ctx.guards))):
+                v, guards = tup[1][0], tup[1][1:]
+                allg = tuple(guards) + tuple(facts)
+                if any(ir.negate(g) in allg for g in allg):
+                    continue
+                out.append((allg, v, ev.line, ctx))
+    return out
